@@ -1,6 +1,6 @@
 /-
   C10, family 2: `QuotaDistributor` and `LargestRemainder` (model VotelibModel/QuotaDist.lean, owned by C02) do not depend
-  on the insertion order of the votes dictionary.  Whole quotas are per party; the remainder seats are `getNBest` over the
+  on the insertion order of the votes dictionary.  A non-positive quota is refused before anything is computed; whole quotas are per party; the remainder seats are `getNBest` over the
   remainders, so the statement follows from `getNBest_perm`.  Results are compared as maps key -> seats (`look`); a `Tie`
   key is a set (the model keeps its members sorted).
 -/
@@ -184,22 +184,20 @@ def qdSel (cfg : Cfg) (votes : Votes) (n : Nat) (prev maxS : IMap) : Sel :=
   if cfg.quota (sumVals votes) n = 0 then []
   else votes.filterMap (awardOf (cfg.quota (sumVals votes) n) cfg.acceptEqual prev maxS)
 
-/-- the loop divides by a zero quota -/
-def qdZeroDiv (cfg : Cfg) (votes : Votes) (n : Nat) : Bool :=
-  decide (cfg.quota (sumVals votes) n = 0) && votes.any (fun p => fulfills 0 cfg.acceptEqual p.2)
+/-- a non-positive quota is refused before the loop (repair eca6e34) -/
+def qdRefused (cfg : Cfg) (votes : Votes) (n : Nat) : Bool := decide (cfg.quota (sumVals votes) n ≤ 0)
 
 theorem quotaDistribute_form (cfg : Cfg) (votes : Votes) (n : Nat) (prev maxS : IMap) (hnd : (votes.map (·.1)).Nodup) :
     quotaDistribute cfg votes n prev maxS =
-      if qdZeroDiv cfg votes n then .error zeroDiv else applyPolicy cfg votes n prev (qdSel cfg votes n prev maxS) := by
-  unfold qdZeroDiv qdSel
-  by_cases hq : cfg.quota (sumVals votes) n = 0
-  · unfold quotaDistribute
-    simp only [hq, wholeLoop_zero, decide_true, Bool.true_and]
-    by_cases ha : (votes.any fun p => fulfills 0 cfg.acceptEqual p.2) = true
-    · simp [ha]
-    · simp [ha]
-  · rw [quotaDistribute_eq cfg votes n prev maxS hq hnd]
+      if qdRefused cfg votes n then .error .votingSystemError
+      else applyPolicy cfg votes n prev (qdSel cfg votes n prev maxS) := by
+  unfold qdRefused qdSel
+  by_cases hq : cfg.quota (sumVals votes) n ≤ 0
+  · rw [quotaDistribute_nonpos cfg votes n prev maxS hq]
     simp [hq]
+  · have hpos : 0 < cfg.quota (sumVals votes) n := not_le.mp hq
+    rw [quotaDistribute_eq cfg votes n prev maxS hpos hnd]
+    simp [hq, ne_of_gt hpos]
 
 theorem keys_filterMap_awardOf (q : Rat) (ae : Bool) (prev maxS : IMap) (votes : Votes) :
     List.Sublist ((votes.filterMap (awardOf q ae prev maxS)).map (·.1)) (votes.map (fun p => Key.cand p.1)) := by
@@ -236,9 +234,9 @@ theorem qdSel_perm (cfg : Cfg) {v₁ v₂ : Votes} (h : v₁.Perm v₂) (n : Nat
   · exact List.Perm.refl _
   · exact h.filterMap _
 
-theorem qdZeroDiv_perm (cfg : Cfg) {v₁ v₂ : Votes} (h : v₁.Perm v₂) (n : Nat) : qdZeroDiv cfg v₁ n = qdZeroDiv cfg v₂ n := by
-  unfold qdZeroDiv
-  rw [sumVals_perm h, h.any_eq]
+theorem qdRefused_perm (cfg : Cfg) {v₁ v₂ : Votes} (h : v₁.Perm v₂) (n : Nat) : qdRefused cfg v₁ n = qdRefused cfg v₂ n := by
+  unfold qdRefused
+  rw [sumVals_perm h]
 
 /-- policies `error` and `ignore` only look at the total -/
 theorem applyPolicy_perm (cfg : Cfg) (hpol : cfg.onOver ≠ .subtract) (v₁ v₂ : Votes) (n : Nat) (prev : IMap)
@@ -260,7 +258,7 @@ theorem quotaDistribute_perm (cfg : Cfg) (hpol : cfg.onOver ≠ .subtract) {v₁
     (hnd : (v₁.map (·.1)).Nodup) (n : Nat) (prev maxS : IMap) :
     ExceptEquiv List.Perm (quotaDistribute cfg v₁ n prev maxS) (quotaDistribute cfg v₂ n prev maxS) := by
   have hnd2 : (v₂.map (·.1)).Nodup := (h.map _).nodup_iff.mp hnd
-  rw [quotaDistribute_form cfg v₁ n prev maxS hnd, quotaDistribute_form cfg v₂ n prev maxS hnd2, qdZeroDiv_perm cfg h]
+  rw [quotaDistribute_form cfg v₁ n prev maxS hnd, quotaDistribute_form cfg v₂ n prev maxS hnd2, qdRefused_perm cfg h]
   split
   · exact rfl
   · exact applyPolicy_perm cfg hpol v₁ v₂ n prev (qdSel_perm cfg h n prev maxS)
